@@ -26,6 +26,10 @@ class ExceptionResponse:
         service_error = enumerations.ServiceException(data.pop(0))
 
         if service_error == enumerations.ServiceException.INVOCATION_COUNTER_ERROR:
+            if len(data) != 4:
+                raise ValueError(
+                    f"The invocation counter should be 4 bytes, got {len(data)}"
+                )
             invocation_counter_data = int.from_bytes(data, "big")
         else:
             invocation_counter_data = None
@@ -33,13 +37,8 @@ class ExceptionResponse:
         return cls(state_error, service_error, invocation_counter_data)
 
     def to_bytes(self):
-        if not self.invocation_counter_data:
-            return bytes([self.TAG, self.state_error, self.service_error])
-        return bytes(
-            [
-                self.TAG,
-                self.state_error,
-                self.service_error,
-                self.invocation_counter_data,
-            ]
-        )
+        out = bytearray([self.TAG, self.state_error, self.service_error])
+        if self.service_error == enumerations.ServiceException.INVOCATION_COUNTER_ERROR:
+            # the invocation-counter-error choice carries an Unsigned32
+            out.extend((self.invocation_counter_data or 0).to_bytes(4, "big"))
+        return bytes(out)
